@@ -351,15 +351,30 @@ structure Item where
 
 def lookupD (d : List (String × Rat)) (k : String) : Rat := ((Dict.get? d k).getD 0)
 
+/-- the entry of `WEIGHTS` the penalty function of an interaction type multiplies with:
+`INTER_METHODS[kind]` names the function (`compute_bond` for bonds AND constraints), `wkey` says which
+`WEIGHTS[...]` that function uses (both tables are translated from the source) -/
+def penaltyKey (methods wkey : List (String × String)) (kind : String) : String :=
+  match Dict.get? methods kind with
+  | none => kind
+  | some fn => match Dict.get? wkey fn with
+    | none => kind
+    | some key => key
+
+def penaltyWeight (weights : List (String × Rat)) (methods wkey : List (String × String)) (kind : String) : Rat :=
+  lookupD weights (penaltyKey methods wkey kind)
+
 /-- `INTER_METHODS[inter_type](params, atom_coords)` -/
-def penalty (weights : List (String × Rat)) (it : Item) : Rat :=
+def penalty (weights : List (String × Rat)) (methods wkey : List (String × String)) (it : Item) : Rat :=
   if it.kind = "dihedrals" && !it.improper then 0
-  else lookupD weights it.kind * ((it.value - it.target) * (it.value - it.target))
+  else penaltyWeight weights methods wkey it.kind * ((it.value - it.target) * (it.value - it.target))
 
 /-- `return False` at the first `penalty > WEIGHTS[t] * tolerance[t]**2`, else `True` -/
-def verdict (weights tolerance : List (String × Rat)) (items : List Item) : Bool :=
+def verdict (weights tolerance : List (String × Rat)) (methods wkey : List (String × String))
+    (items : List Item) : Bool :=
   items.all fun it =>
-    !decide (penalty weights it > lookupD weights it.kind * (lookupD tolerance it.kind * lookupD tolerance it.kind))
+    !decide (penalty weights methods wkey it >
+      lookupD weights it.kind * (lookupD tolerance it.kind * lookupD tolerance it.kind))
 
 /-- the property's reading: every bond, constraint, angle and improper is within its tolerance -/
 def withinTolerance (tolerance : List (String × Rat)) (items : List Item) : Bool :=
